@@ -17,6 +17,8 @@ pub struct SearchSpec {
     pub method: String, // none each filter
     pub rej: Vec<(usize, usize, u32)>,
     pub mode: String, // node path cycle nodes edges
+    /// C20: operations run from inside the callback at given step indices
+    pub script: Option<String>,
 }
 
 pub fn parse_rej(s: &str) -> Vec<(usize, usize, u32)> {
@@ -35,17 +37,22 @@ pub fn parse_rej(s: &str) -> Vec<(usize, usize, u32)> {
 pub fn parse_search(t: &[&str]) -> SearchSpec {
     // search <kind> <fwd|tr> <root> <target|-> <none|each|filter:REJ> <node|path|cycle>
     // order  <pre|post> <fwd|tr|default> <root> <method> <nodes|edges>
+    let mtok = if t[0] == "search" { t[5] } else { t[4] };
+    let (mtok, script) = match mtok.split_once('@') {
+        Some((a, b)) => (a, Some(b.to_string())),
+        None => (mtok, None),
+    };
     let (method, rej) = |m: &str| -> (String, Vec<(usize, usize, u32)>) {
         if let Some(r) = m.strip_prefix("filter:") {
             ("filter".into(), parse_rej(r))
         } else {
             (m.to_string(), vec![])
         }
-    }(if t[0] == "search" { t[5] } else { t[4] });
+    }(mtok);
     if t[0] == "search" {
-        SearchSpec { kind: t[1].into(), tr: t[2] == "tr", dflt: false, root: t[3].parse().unwrap(), target: t[4].parse().ok(), method, rej, mode: t[6].into() }
+        SearchSpec { kind: t[1].into(), tr: t[2] == "tr", dflt: false, root: t[3].parse().unwrap(), target: t[4].parse().ok(), method, rej, mode: t[6].into(), script }
     } else {
-        SearchSpec { kind: t[1].into(), tr: t[2] == "tr", dflt: t[2] == "default", root: t[3].parse().unwrap(), target: None, method, rej, mode: t[5].into() }
+        SearchSpec { kind: t[1].into(), tr: t[2] == "tr", dflt: t[2] == "default", root: t[3].parse().unwrap(), target: None, method, rej, mode: t[5].into(), script }
     }
 }
 
@@ -76,14 +83,23 @@ pub fn show_search(spec: &SearchSpec, o: &SearchOut) -> String {
 }
 
 macro_rules! with_method {
-    ($b:expr, $spec:expr, $trace:expr, $run:ident) => {{
+    ($b:expr, $spec:expr, $trace:expr, $run:ident, $hook:expr) => {{
         let rej = $spec.rej.clone();
         let mut f_each = |e: &Edge<usize, i64, u32>| {
-            $trace.borrow_mut().push((*e.0.key(), *e.1.key(), e.2));
+            let t = (*e.0.key(), *e.1.key(), e.2);
+            let i = $trace.borrow().len();
+            $trace.borrow_mut().push(t);
+            if let Some(h) = $hook {
+                h(i, t);
+            }
         };
         let mut f_filter = |e: &Edge<usize, i64, u32>| -> bool {
             let t = (*e.0.key(), *e.1.key(), e.2);
+            let i = $trace.borrow().len();
             $trace.borrow_mut().push(t);
+            if let Some(h) = $hook {
+                h(i, t);
+            }
             !rej.contains(&t)
         };
         let b = $b;
@@ -148,7 +164,7 @@ macro_rules! run_order_modes {
 
 macro_rules! kind_search {
     (di) => {
-        pub fn do_search(st: &St, spec: &SearchSpec) -> SearchOut {
+        pub fn do_search(st: &St, spec: &SearchSpec, hook: Option<&dyn Fn(usize, (usize, usize, u32))>) -> SearchOut {
             let mut out = SearchOut { node: None, path: None, path_nodes: vec![], path_len: 0, list_nodes: vec![], list_edges: vec![], trace: vec![] };
             let trace: RefCell<Vec<(usize, usize, u32)>> = RefCell::new(vec![]);
             let root = st.node(spec.root).clone();
@@ -160,20 +176,20 @@ macro_rules! kind_search {
                         let b = root.bfs();
                         let b = if spec.tr { b.transpose() } else { b };
                         let b = match &tgt { Some(t) => b.target(t), None => b };
-                        with_method!(b, spec, trace, run)
+                        with_method!(b, spec, trace, run, hook)
                     }
                     "dfs" => {
                         let b = root.dfs();
                         let b = if spec.tr { b.transpose() } else { b };
                         let b = match &tgt { Some(t) => b.target(t), None => b };
-                        with_method!(b, spec, trace, run)
+                        with_method!(b, spec, trace, run, hook)
                     }
                     "pfs-min" | "pfs-max" => {
                         let b = root.pfs();
                         let b = if spec.kind == "pfs-max" { b.max() } else { b.min() };
                         let b = if spec.tr { b.transpose() } else { b };
                         let b = match &tgt { Some(t) => b.target(t), None => b };
-                        with_method!(b, spec, trace, run)
+                        with_method!(b, spec, trace, run, hook)
                     }
                     _ => {}
                 }
@@ -184,12 +200,12 @@ macro_rules! kind_search {
                     "pre" => {
                         let b = root.preorder();
                         let b = if spec.tr { b.transpose() } else { b };
-                        with_method!(b, spec, trace, run)
+                        with_method!(b, spec, trace, run, hook)
                     }
                     "post" => {
                         let b = root.postorder();
                         let b = if spec.tr { b.transpose() } else { b };
-                        with_method!(b, spec, trace, run)
+                        with_method!(b, spec, trace, run, hook)
                     }
                     _ => {}
                 }
@@ -199,7 +215,7 @@ macro_rules! kind_search {
         }
     };
     (un) => {
-        pub fn do_search(st: &St, spec: &SearchSpec) -> SearchOut {
+        pub fn do_search(st: &St, spec: &SearchSpec, hook: Option<&dyn Fn(usize, (usize, usize, u32))>) -> SearchOut {
             let mut out = SearchOut { node: None, path: None, path_nodes: vec![], path_len: 0, list_nodes: vec![], list_edges: vec![], trace: vec![] };
             let trace: RefCell<Vec<(usize, usize, u32)>> = RefCell::new(vec![]);
             let root = st.node(spec.root).clone();
@@ -210,18 +226,18 @@ macro_rules! kind_search {
                     "bfs" => {
                         let b = root.bfs();
                         let b = match &tgt { Some(t) => b.target(t), None => b };
-                        with_method!(b, spec, trace, run)
+                        with_method!(b, spec, trace, run, hook)
                     }
                     "dfs" => {
                         let b = root.dfs();
                         let b = match &tgt { Some(t) => b.target(t), None => b };
-                        with_method!(b, spec, trace, run)
+                        with_method!(b, spec, trace, run, hook)
                     }
                     "pfs-min" | "pfs-max" => {
                         let b = root.pfs();
                         let b = if spec.kind == "pfs-max" { b.max() } else { b.min() };
                         let b = match &tgt { Some(t) => b.target(t), None => b };
-                        with_method!(b, spec, trace, run)
+                        with_method!(b, spec, trace, run, hook)
                     }
                     _ => {}
                 }
@@ -231,11 +247,11 @@ macro_rules! kind_search {
                 match spec.kind.as_str() {
                     "pre" => {
                         let b = root.order().pre();
-                        with_method!(b, spec, trace, run)
+                        with_method!(b, spec, trace, run, hook)
                     }
                     "post" => {
                         let b = root.order().post();
-                        with_method!(b, spec, trace, run)
+                        with_method!(b, spec, trace, run, hook)
                     }
                     _ => {}
                 }
@@ -248,6 +264,29 @@ macro_rules! kind_search {
 
 macro_rules! kind_reversed {
     (di) => {
+        /// runs `f(index, edge, which)` for every edge the iterator yields; `f` returns false to stop (cap); returns false if stopped
+        pub fn iter_loop(n: &N, which: &str, f: &mut dyn FnMut(usize, (usize, usize, u32), &str) -> bool) -> bool {
+            let mut i = 0;
+            if which == "in" {
+                for Edge(u, v, e) in n.iter_in() {
+                    if !f(i, (*u.key(), *v.key(), e), "in") {
+                        return false;
+                    }
+                    i += 1;
+                }
+            } else {
+                for Edge(u, v, e) in n.iter_out() {
+                    if !f(i, (*u.key(), *v.key(), e), "out") {
+                        return false;
+                    }
+                    i += 1;
+                }
+            }
+            true
+        }
+        fn nested_search(n: &N, t: usize) -> Option<usize> {
+            n.bfs().target(&t).search_path().map(|p| p.len() - 1)
+        }
         /// fresh nodes with every edge reversed; `out_from_in`: new outgoing lists = old incoming lists
         /// (same order), otherwise new incoming lists = old outgoing lists (same order)
         pub fn reversed(st: &St, out_from_in: bool) -> St {
@@ -268,6 +307,19 @@ macro_rules! kind_reversed {
         }
     };
     (un) => {
+        pub fn iter_loop(n: &N, _which: &str, f: &mut dyn FnMut(usize, (usize, usize, u32), &str) -> bool) -> bool {
+            let mut i = 0;
+            for Edge(u, v, e) in n.iter() {
+                if !f(i, (*u.key(), *v.key(), e), "adj") {
+                    return false;
+                }
+                i += 1;
+            }
+            true
+        }
+        fn nested_search(n: &N, t: usize) -> Option<usize> {
+            n.bfs().target(&t).search_path().map(|p| p.len() - 1)
+        }
         pub fn reversed(st: &St, _out_from_in: bool) -> St {
             St { nodes: st.nodes.clone() }
         }
@@ -278,7 +330,8 @@ macro_rules! conc_dispatch {
     (yes, $m:ident, $st:expr, $ext:expr, $t:expr, $ctx:expr, $case:expr, $li:expr) => {{
         let threads = crate::exec_conc::parse_threads($t[1]);
         let forced = std::mem::take(&mut $ctx.forced_schedule);
-        let (line, dec, outcome, fail) = crate::exec_conc::$m::run($st, &threads, forced);
+        let forced_ids = if forced.is_empty() { std::mem::take(&mut $ctx.forced_ids) } else { vec![] };
+        let (line, dec, outcome, fail) = crate::exec_conc::$m::run($st, &threads, forced, forced_ids);
         $ext.annot = Some(format!("@sched={}", dec.iter().map(|d| d.2.to_string()).collect::<Vec<_>>().join(",")));
         $ctx.last_decisions = dec;
         $ctx.last_outcome = Some(outcome);
@@ -311,6 +364,40 @@ macro_rules! ext_mod {
             kind_search!($kind);
             kind_reversed!($kind);
             cont_kind_items!($ckind);
+
+            /// one operation of a C20 script, against the live graph; returns its result as text
+            pub fn script_op(st: &St, g0: &RefCell<G>, op: &crate::exec_conc::Call2) -> String {
+                let n = |k: usize| st.node(k).clone();
+                match op.kind.as_str() {
+                    "c" => {
+                        n(op.a).connect(&n(op.b), op.e);
+                        "ok".into()
+                    }
+                    "t" => match n(op.a).try_connect(&n(op.b), op.e) {
+                        Ok(()) => "ok".into(),
+                        Err(_) => "err_exists".into(),
+                    },
+                    "d" => match n(op.a).disconnect(&op.b) {
+                        Ok(e) => format!("ok_{e}"),
+                        Err(_) => "err_notfound".into(),
+                    },
+                    "x" => {
+                        n(op.a).isolate();
+                        "ok".into()
+                    }
+                    "q" => format!("{}", n(op.a).is_connected(&op.b) as u8),
+                    "s" => match nested_search(&n(op.a), op.b) {
+                        Some(l) => format!("len={l}"),
+                        None => "none".into(),
+                    },
+                    "gi" => format!("{}", g0.borrow_mut().insert(n(op.a))),
+                    "gr" => match g0.borrow_mut().remove(&op.a) {
+                        Some(x) => format!("Some({})", x.key()),
+                        None => "None".into(),
+                    },
+                    _ => "bad".into(),
+                }
+            }
 
             pub fn order_of(g: &G) -> Vec<usize> {
                 g.iter().map(|(k, _)| *k).collect()
@@ -399,7 +486,36 @@ macro_rules! ext_mod {
                 match t[0] {
                     "search" | "order" => {
                         let spec = parse_search(t);
-                        let out = do_search(st, &spec);
+                        let sres: RefCell<Vec<String>> = RefCell::new(vec![]);
+                        let sfail: RefCell<Option<String>> = RefCell::new(None);
+                        let g0 = RefCell::new(if ext.graphs.is_empty() { G::new() } else { std::mem::take(&mut ext.graphs[0]) });
+                        let out = {
+                            let script = spec.script.as_ref().map(|s| crate::exec_cont::parse_script(s));
+                            let tr = DIRECTED && spec.tr;
+                            let hook_fn = |i: usize, t: (usize, usize, u32)| {
+                                // C20: the edge handed to the closure must exist right now, with these endpoints and value
+                                let live = st.lists();
+                                let n = live.iter().find(|n| n.key == t.0);
+                                let ok = n.map_or(false, |n| if tr { n.inn.contains(&(t.1, t.2)) } else { n.out.contains(&(t.1, t.2)) });
+                                if !ok && sfail.borrow().is_none() {
+                                    *sfail.borrow_mut() = Some(format!("the closure was handed {:?}, which is not an edge of the graph at that moment", t));
+                                }
+                                if let Some(sc) = &script {
+                                    for op in crate::exec_cont::ops_at(sc, i) {
+                                        sres.borrow_mut().push(script_op(st, &g0, &op));
+                                    }
+                                }
+                            };
+                            do_search(st, &spec, if spec.script.is_some() { Some(&hook_fn) } else { None })
+                        };
+                        if !ext.graphs.is_empty() {
+                            ext.graphs[0] = g0.into_inner();
+                        }
+                        if let Some(m) = sfail.into_inner() {
+                            if ctx.has("c20") {
+                                ctx.fail(case, li, "c20", m);
+                            }
+                        }
                         ctx.count(&format!("search.{}.{}.{}", spec.kind, spec.mode, if spec.mode == "nodes" || spec.mode == "edges" { "list" } else if out.node.is_some() || out.path.is_some() { "found" } else { "none" }));
                         if !ctx.quiet && !ctx.oracles.is_empty() {
                             let ls = st.lists();
@@ -408,19 +524,60 @@ macro_rules! ext_mod {
                                 ctx.fail(case, li, &name, msg);
                             }
                         }
-                        let shown = show_search(&spec, &out);
+                        let mut shown = show_search(&spec, &out);
+                        if spec.script.is_some() {
+                            shown.push_str(&format!(" res=[{}]", sres.into_inner().join(",")));
+                        }
                         if DIRECTED && !ctx.quiet && ctx.oracles.iter().any(|o| o == "c08") && !spec.dflt {
                             // metamorphic: transpose() on G == the same search without it on the edge-reversed graph
                             let rev = reversed(st, spec.tr);
                             let mut spec2 = spec.clone();
                             spec2.tr = !spec.tr;
-                            let out2 = do_search(&rev, &spec2);
+                            let out2 = do_search(&rev, &spec2, None);
                             let shown2 = show_search(&spec2, &out2);
                             if shown != shown2 {
                                 ctx.fail(case, li, "c08", format!("`{}` gives `{}` but the {} search on the edge-reversed graph gives `{}`", raw, shown, if spec2.tr { "transposed" } else { "plain" }, shown2));
                             }
                         }
                         shown
+                    }
+                    "iter" => {
+                        // iter <out|in|adj> <u> <script> : a plain `for edge in node.iter_*()` loop whose body runs the script
+                        let u = t[2].parse::<usize>().unwrap();
+                        let script = crate::exec_cont::parse_script(t[3]);
+                        let g0 = RefCell::new(if ext.graphs.is_empty() { G::new() } else { std::mem::take(&mut ext.graphs[0]) });
+                        let mut yielded: Vec<(usize, usize, u32)> = vec![];
+                        let mut res: Vec<String> = vec![];
+                        let mut bad: Option<String> = None;
+                        let node = st.node(u).clone();
+                        let r = iter_loop(&node, t[1], &mut |i, tri, which| {
+                            let live = st.lists();
+                            let n = live.iter().find(|n| n.key == u).unwrap();
+                            let ok = match which {
+                                "in" => tri.1 == u && n.inn.contains(&(tri.0, tri.2)),
+                                _ => tri.0 == u && n.out.contains(&(tri.1, tri.2)),
+                            };
+                            if !ok && bad.is_none() {
+                                bad = Some(format!("the iterator yielded {:?}, which is not an edge of node {u} at that moment", tri));
+                            }
+                            yielded.push(tri);
+                            for op in crate::exec_cont::ops_at(&script, i) {
+                                res.push(script_op(st, &g0, &op));
+                            }
+                            yielded.len() < 300
+                        });
+                        if !ext.graphs.is_empty() {
+                            ext.graphs[0] = g0.into_inner();
+                        }
+                        if ctx.has("c20") {
+                            if let Some(m) = bad {
+                                ctx.fail(case, li, "c20", m);
+                            }
+                            if !r {
+                                ctx.fail(case, li, "c20", format!("`{raw}`: the loop did not end within 300 steps although the script stopped adding edges"));
+                            }
+                        }
+                        if !r { "hang".to_string() } else { format!("yield={} res=[{}]", fmt_edges(&yielded), res.join(",")) }
                     }
                     "conc" => conc_dispatch!($conc, $m, st, ext, t, ctx, case, li),
                     "cmp" => {
